@@ -13,7 +13,7 @@ def run(chk, failed):
                 "groups; the C14 oracle (threshold, lists, interval and send-once within an incident / quiet period, every incident "
                 "announced - computed from the history alone) is evaluated on every call log of the implementation; non-trivial = at "
                 "least two incidents of one (cluster, group); distinct by the case line")
-    G.check_body(chk, failed, "C14", G.oracle_c14, ["clock", "clock", "clock", "groups"], 24000, 600000, CORR)
+    G.check_body(chk, failed, "C14", G.oracle_c14, ["clock", "clock", "clock", "groups"], 36000, 600000, CORR)
     chk.assumptions += [
         "clock readings are int64 Unix nanoseconds set through VerifSetClock; time.Time.Sub's saturation and the int64 wrap of send-interval * 1e9 are modelled, the interval theorem assumes 0 <= send-interval * 1e9 < 2^63",
         "interval and send-once are counted within an incident (and within a quiet period for thresholds <= OK): the remembered notify times are forgotten when an incident opens (fix F3), for a module that sent a close notification, and when the group leaves the notifier's list (its record is deleted; a re-listed group starts blank)",
